@@ -41,7 +41,7 @@ TABLE = {
     "C17": ([("bpReset", 150)], {"C17.others_undisturbed"}, None),
     "C17b": ([("rstRaceBc", 150)], {"C17.peer_reset_overridden"}, None),
     "C18": ([("floodBs", 50)], {"C18.empty_data_bound", "C18.recv_buffer_bound"}, None),
-    "C18b": ([("floodBs", 50), ("abuseB", 400)], {"C18.quota_counters", "C18.store_bound", "C18.owed_replies_bound"}, None),
+    "C18b": ([("floodBs", 50), ("abuseB", 400)], {"C18.error_reset_quota", "C18.quota_counters"}, None),
     "C19": ([("mixA", 250)], {"C19.slab_idle"}, "unlinked_record_kept_for_no_reason"),
     "C19b": ([("cancelA", 300)], {"C16.pool", "C19.flow_idle", "C06.progress"}, None),
     "C20": ([("inlineA", 300)], {"C19.idle_close", "C20.deadlock"}, None),
